@@ -234,9 +234,47 @@ func init() {
 			i.reachCells(args[1], argString(args[0]), map[*value]bool{}, i.watch)
 			return nil
 		},
+		"WatchGlobals": func(fr *frame, args []value) value {
+			// every package-level variable (initialised so far) of packages under the given path prefix,
+			// and everything reachable from them
+			i := fr.i
+			prefix := argString(args[0])
+			if i.watch == nil {
+				i.watch = map[*value]string{}
+			}
+			seen := map[*value]bool{}
+			for g, cell := range i.globals {
+				if g.Pkg == nil || !strings.HasPrefix(g.Pkg.Pkg.Path(), prefix) || strings.Contains(g.Pkg.Pkg.Path(), "zzverifrt") {
+					continue
+				}
+				if strings.HasPrefix(g.Name(), "init$") || strings.HasPrefix(g.Name(), "verif") || strings.HasPrefix(g.Name(), "Verif") {
+					continue
+				}
+				i.reachCells(cell, "global "+g.Pkg.Pkg.Path()+"."+g.Name(), seen, i.watch)
+			}
+			return nil
+		},
 		"WatchHits": func(fr *frame, args []value) value { return len(fr.i.watchHits) },
+		"WatchReport": func(fr *frame, args []value) value {
+			// makes the first hits visible in the violation message
+			for k, h := range fr.i.watchHits {
+				if k < 3 {
+					fr.i.noteStub("watched cell written: " + h)
+				}
+			}
+			return nil
+		},
 		"WatchEnd": func(fr *frame, args []value) value {
 			fr.i.watch = nil
+			return nil
+		},
+		"WatchEndTag": func(fr *frame, args []value) value {
+			tag := argString(args[0])
+			for c, t := range fr.i.watch {
+				if t == tag {
+					delete(fr.i.watch, c)
+				}
+			}
 			return nil
 		},
 	}
@@ -496,6 +534,14 @@ func init() {
 			return 4
 		},
 		"runtime.GOMAXPROCS":   func(fr *frame, args []value) value { return 4 },
+		// an allocation of a symbolic number of bytes is an opaque buffer of that length (nothing reads it)
+		"(*github.com/apache/arrow-go/v18/arrow/memory.GoAllocator).Allocate": func(fr *frame, args []value) value {
+			if t, ok := args[1].(*smt.Term); ok {
+				return &symSlice{n: t}
+			}
+			return fallThrough{}
+		},
+		"(*github.com/apache/arrow-go/v18/arrow/memory.GoAllocator).Free": nop,
 		"runtime.Caller": func(fr *frame, args []value) value {
 			return tuple{uintptr(0), "", 0, false}
 		},
